@@ -75,6 +75,8 @@ def make_case(seed, tier):
             'root': rng.choice(cands) if cands and rng.random() < 0.9
             else rng.randrange(n),
             'times': rng.choice([None, None, 1, 2])}
+    case['now_offset'] = rng.choice([0, 0, 1, 30, 59])
+    case['max_vtime'] = 36000.0 + 7200.0
     case['concurrent'] = rng.random() < 0.16
     if case['concurrent']:
         pc, _ = progcase.program_case(seed, progcase.CORE + ('subwf',),
@@ -106,7 +108,11 @@ class Runner18(runner.Runner):
         roots = []
         for i, tree in enumerate(case['trees']):
             roots.append(self._create_tree(tree, 'r%d' % i, None, None))
-        sim.set_now(base_now)
+        # the policy is evaluated ten (virtual) hours after the epoch: the
+        # trees above were last updated 0-240 minutes before that moment
+        sim.set_now(core.EPOCH.replace(microsecond=0) +
+                    datetime.timedelta(hours=10,
+                                       seconds=case.get('now_offset', 0)))
         self._install_faults(roots)
         s = case['settings']
         for k, v in s.items():
